@@ -299,6 +299,9 @@ func gen(c *h.Ctx, r *h.Rng, maxOps int) []string {
 	vals := []uint64{0x3ff0000000000000, 0x4000000000000000, 0x4008000000000000, 0x7ff8000000000001, 0x7ff0000000000002 /* stale NaN */, 0x8000000000000000, 0x7ff0000000000000, 0}
 	for len(ops) < n {
 		k := r.Intn(100)
+		if c.Extra["delheavy"] == "1" && r.Chance(25) {
+			k = 50 + r.Intn(8) // deletion-heavy histories (used by the C20 check)
+		}
 		switch {
 		case k < 50:
 			if !inTx {
